@@ -125,6 +125,8 @@ OBSERVER = {
 }
 
 RESTART = {
+    "switch_device",
+    "switch_register",
     "restart_abstract",
     "restart_legacy",
     "restart_build",
@@ -306,6 +308,24 @@ def _do(sut: SUT, op: dict) -> Any:
         sut.seq = seq.switch_device(
             W.build_device(sut.world["device"]), strict=op.get("strict", True)
         )
+        sut.restarts += 1
+        return None
+    if k == "switch_device":
+        from . import world as W
+
+        nd = W.build_device(op["device"])
+        sut.seq = seq.switch_device(nd, strict=op["strict"])
+        sut.device = nd
+        sut.world = dict(sut.world, device=op["device"])
+        sut.restarts += 1
+        return None
+    if k == "switch_register":
+        from . import world as W
+
+        nr = W.build_register(op["register"])
+        sut.seq = seq.switch_register(nr)
+        sut.register = nr
+        sut.world = dict(sut.world, register=op["register"])
         sut.restarts += 1
         return None
     # ---------------------------------------------------------------- cache
